@@ -229,7 +229,26 @@ func runProgram(dir string, jobs []string, fixedBudget time.Duration) progResult
 				}
 				return pr
 			}
-			return pr // died after the last END (should not happen)
+			// died between an END and the next BEGIN: a goroutine of the job that just "ended" was still panicking
+			// (e.g. MapParallel's collector fails on the missing result, is recovered by the worker, and then the
+			// original goroutine panic kills the process). The crash dump names the real cause.
+			if len(pr.outs) == 0 || killed {
+				return pr
+			}
+			last := &pr.outs[len(pr.outs)-1]
+			st := stderr.String()
+			if m := panicRe.FindString(st); m != "" {
+				last.status = "crash"
+				last.msg = m + " || " + firstRepoFrames(goroutineTrace(st))
+			}
+			idx := -1
+			for i, j := range remaining {
+				if j == last.job {
+					idx = i
+				}
+			}
+			remaining = remaining[idx+1:]
+			continue
 		}
 		o := outcome{job: inProgress}
 		if killed {
@@ -451,6 +470,9 @@ func main() {
 			} else if fs := fieldSensitiveOnly(it, o); fs != "" {
 				key = "C07f:fieldsens-nontermination"
 				what += " — " + fs
+			} else if cl := contextLimitOnly(it, o); cl != "" {
+				key = "C07g:calling-contexts-unbounded"
+				what += " — " + cl
 			}
 		}
 		if strings.Contains(o.msg, "invalid memory address or nil pointer dereference") && strings.Contains(o.msg, "config.(*CodeIdentifier).equalOnNonEmptyFields") {
@@ -642,6 +664,41 @@ func fieldSensitiveOnly(it *sweepItem, o outcome) string {
 	for _, r := range pr.outs {
 		if r.status == "ok" || r.status == "error" {
 			return fmt.Sprintf("the same job with field-sensitive: false ends with %s after %d ms: divergence of the field-sensitive traversal (access-path lists grow along a cycle, key never repeats)", r.status, r.ms)
+		}
+	}
+	return ""
+}
+
+var ctxLimitRe = regexp.MustCompile(`(?m)^\s*max-entrypoint-context-size:\s*(-?\d+)\s*$`)
+
+// contextLimitOnly: the job timed out under a configuration whose max-entrypoint-context-size is unlimited (≤ 0)
+// or larger than the default 5; does it finish with the default? Then the divergence is the enumeration of all
+// call-node-distinct calling contexts (finding C07g).
+func contextLimitOnly(it *sweepItem, o outcome) string {
+	name, cfgFile, ok := strings.Cut(o.job, "@")
+	if !ok {
+		return ""
+	}
+	cfg := it.files[cfgFile]
+	m := ctxLimitRe.FindStringSubmatch(cfg)
+	if m == nil {
+		return ""
+	}
+	var lim int
+	fmt.Sscan(m[1], &lim)
+	if lim > 0 && lim <= 5 {
+		return ""
+	}
+	alt := strings.TrimSuffix(cfgFile, ".yaml") + ".ctx5.yaml"
+	os.WriteFile(filepath.Join(it.dir, alt), []byte(ctxLimitRe.ReplaceAllString(cfg, "  max-entrypoint-context-size: 5")), 0o644)
+	budget := time.Duration(o.ms) * time.Millisecond
+	if budget < 20*time.Second {
+		budget = 20 * time.Second
+	}
+	pr := runProgram(it.dir, []string{name + "@" + alt}, budget)
+	for _, r := range pr.outs {
+		if r.status == "ok" || r.status == "error" {
+			return fmt.Sprintf("the same job with max-entrypoint-context-size: 5 (instead of %d) ends with %s after %d ms: GetAllCallingContexts enumerates every call-node-distinct context (model bound numNodup, theorem ctx_terminates)", lim, r.status, r.ms)
 		}
 	}
 	return ""
